@@ -10,6 +10,7 @@ import McpModel.Wire.LemmasSse
 import McpModel.Wire.LemmasBytes
 import McpModel.Wire.LemmasConc
 import McpModel.Wire.LemmasRef
+import McpModel.Wire.LemmasClone
 import McpModel.Wire.LemmasAnn
 import McpModel.Wire.LemmasRetry
 /-!
